@@ -561,3 +561,74 @@ func vfH_C09_encoder_step() {
 		vfAssert("enc/next-id-is-the-successor", enc.next == id+1)
 	}
 }
+
+// C12 (FEC half) as a multi-group scenario across the id wrap and across 2^31: a decoder that has
+// tracked the stream follows ten consecutive groups of the real encoder starting two groups
+// before the boundary; one data packet of every group is lost. Throughout: every group recovers
+// its lost packet as soon as d of its packets arrived, the decoder never holds more than the few
+// most recent groups, and it never suspects a mismatch — exactly as at position 0.
+func vfH_C12_fec_across_boundaries() {
+	r := []vfRatio{{2, 1}, {1, 1}, {3, 2}}[vfPick("ratio", 0, 2)]
+	S := uint32(r.d + r.p)
+	enc := newFECEncoder(r.d, r.p, 0)
+	dec := newFECDecoder(r.d, r.p)
+	paws := enc.paws
+	var base uint32
+	switch vfPick("boundary", 0, 2) {
+	case 0:
+		base = 0 // reference: far from any boundary
+	case 1:
+		base = paws - 2*S // crosses the wrap value
+	default:
+		base = (0x80000000/S)*S - 2*S // crosses 2^31
+	}
+	enc.next = base
+	if base != 0 {
+		dec.newestShardId = base/S - 1
+	}
+	enc.tsLatestPacket = vfRecentMilli("tsLatest")
+	lost := vfPick("lost", 0, r.d-1)
+	const G = 10
+	recovered := 0
+	skipped := false
+	for g := 0; g < G && !skipped; g++ {
+		var grp []vfSent
+		for i := 0; i < r.d; i++ {
+			b := make([]byte, fecHeaderSizePlus2+2)
+			pay := vfBytes(vfName(vfName("pay", g)+"_", i), 2)
+			copy(b[fecHeaderSizePlus2:], pay)
+			vfBeforeEncode()
+			ps := enc.encode(b, maxFECEncodeLatency)
+			grp = append(grp, vfSent{pkt: vfCopy(b), data: true, idx: i, orig: pay})
+			for k := range ps {
+				grp = append(grp, vfSent{pkt: vfCopy(ps[k]), data: false, idx: r.d + k})
+			}
+		}
+		if len(grp) != int(S) {
+			skipped = true // the sender judged the data non-continuous: that case is vfH_C07_skip_parity
+			break
+		}
+		got := 0
+		for _, s := range grp {
+			if s.data && s.idx == lost {
+				continue
+			}
+			rec := vfFilterRecovered(dec.decode(vfCopy(s.pkt)))
+			got++
+			for _, rp := range rec {
+				o := grp[lost].orig
+				vfAssert("c12/fec/recovered-packet-is-the-lost-one", len(rp) == len(o) && vfConcreteBool(vfBytesEq(rp, o)))
+				recovered++
+			}
+			if got == r.d {
+				vfAssert("c12/fec/lost-packet-recovered-once-d-arrived", recovered >= g+1)
+			}
+		}
+		vfAssert("c12/fec/holds-only-the-most-recent-groups", len(dec.shardSet) <= maxShardSets+2)
+		vfAssert("c12/fec/never-suspects-a-mismatch", !dec.shouldTune)
+	}
+	vfReach("done")
+	if !skipped {
+		vfAssert("c12/fec/every-group-recovered", recovered >= G)
+	}
+}
